@@ -185,6 +185,19 @@ def add_multibyte_names(f, rng):
     return f
 
 
+# stems with a character whose lower-case form has another UTF-8 length (longer: U+0130, U+023A, U+023E; shorter:
+# Kelvin U+212A, Ohm U+2126, Angstrom U+212B, U+1E9E): the clash counter compares lower-cased candidates, so a
+# family of 2..6 names on such a stem exercises every place where a byte offset of the original stem could be
+# applied to its lower-cased form; the character at the start, in the middle, at the end of the stem, next to an
+# upper-case ASCII letter, and with a multi-byte character as the last one of the stem (right at the cut)
+CASE_LENGTH_CHARS = ["\u0130", "\u023a", "\u023e", "\u212a", "\u2126", "\u212b", "\u1e9e"]
+CASE_LENGTH_FAMILIES = [[pat.replace("X", ch).replace("#", c) for c in '*?:|"<']
+                        for ch in CASE_LENGTH_CHARS
+                        for pat in ("Xq#", "rX#s", "tX#", "AX#", "X#\u6f22")]
+LAYER_COLLISIONS += CASE_LENGTH_FAMILIES
+GLYPH_COLLISIONS += CASE_LENGTH_FAMILIES
+
+
 def long_name_clash(font, err):
     """class predicate: the save failed with 'file name too long' and two glyph names of one layer
     (or two layer names) are longer than 240 bytes and agree on their first 240 bytes"""
@@ -206,7 +219,8 @@ def history_fonts(base_fonts, rng, long_names=True):
         have = {l["name"] for l in f["layers"]}
         lfams = [fm for fm in LAYER_COLLISIONS if long_names or max(len(x) for x in fm) < 100]
         gfams = [fm for fm in GLYPH_COLLISIONS if long_names or max(len(x) for x in fm) < 100]
-        for fam in rng.sample(lfams, rng.randint(1, 2)):
+        pick_l = rng.sample(lfams, rng.randint(1, 2)) + ([rng.choice(CASE_LENGTH_FAMILIES)] if rng.random() < 0.25 else [])
+        for fam in pick_l:
             for n in rng.sample(fam, rng.randint(min(3, len(fam)) if rng.random() < 0.5 else 2, len(fam))):
                 if n not in have and n != "public.default":
                     have.add(n)
@@ -215,7 +229,7 @@ def history_fonts(base_fonts, rng, long_names=True):
         for l in f["layers"]:
             if rng.random() < 0.6:
                 gh = {g["name"] for g in l["glyphs"]}
-                for fam in rng.sample(gfams, rng.randint(1, 2)):
+                for fam in rng.sample(gfams, rng.randint(1, 2)) + ([rng.choice(CASE_LENGTH_FAMILIES)] if rng.random() < 0.4 else []):
                     for n in rng.sample(fam, rng.randint(min(3, len(fam)) if rng.random() < 0.5 else 2, len(fam))):
                         if n not in gh:
                             gh.add(n)
